@@ -84,9 +84,24 @@ func (s *sc) start(id string, n, k int, mbcv int) {
 		s.do("key %s %s", a.pk, a.hex())
 	}
 	s.do("height 10")
+	// node owners: in two cases out of three some nodes were registered from another wallet, and one wallet owns
+	// several nodes (the owner address of a pool entry is then not the address of the node key; approvals are
+	// counted by the key's address)
+	s.seq++
+	wallets := []actor{s.newAddr(), s.newAddr()}
+	s.outs = append(s.outs, wallets...)
 	var peers []string
 	for i, a := range s.vals {
-		peers = append(peers, fmt.Sprintf("%d:%s:%s", i+1, a.pk, a.hex()))
+		owner := a.hex()
+		if s.seq%3 != 0 {
+			switch s.r.Rng.Intn(3) {
+			case 1:
+				owner = wallets[0].hex()
+			case 2:
+				owner = wallets[1].hex()
+			}
+		}
+		peers = append(peers, fmt.Sprintf("%d:%s:%s", i+1, a.pk, owner))
 	}
 	s.do("init %d %s", mbcv, strings.Join(peers, " "))
 }
@@ -235,6 +250,11 @@ func (f *gov) genApprovals(s *sc) {
 			n += 5 // BlackNode needs more than four active members
 		}
 		s.start(fmt.Sprintf("approvals-%s-N%d-%d", kind, n, h), n, 2, 100000)
+		// chain ids are different in every case: whatever a process keeps outside the contract state must not make
+		// one case depend on another
+		cf := func(format string) string {
+			return strings.ReplaceAll(strings.ReplaceAll(format, "CID2", fmt.Sprint(8+16*h)), "CID", fmt.Sprint(7+16*h))
+		}
 		owner := s.newAddr()
 		var mk func(signer, claimed string) string
 		cand := s.extra[0]
@@ -253,17 +273,17 @@ func (f *gov) genApprovals(s *sc) {
 			s.fullRound(func(sg, c string) string { return fmt.Sprintf("black %s %s %s", sg, c, cand.pk) })
 			mk = func(sg, c string) string { return fmt.Sprintf("white %s %s %s", sg, cand.pk, c) }
 		case "scappr":
-			s.do("screg %s %s 7 2 %s 1 aabb -", owner.hex(), owner.hex(), hexName("chain7"))
-			mk = func(sg, c string) string { return fmt.Sprintf("scappr %s 7 %s", sg, c) }
+			s.do(cf("screg %s %s CID 2 %s 1 aabb -"), owner.hex(), owner.hex(), hexName("chain7"))
+			mk = func(sg, c string) string { return fmt.Sprintf(cf("scappr %s CID %s"), sg, c) }
 		case "scapprupd", "scapprquit":
-			s.do("screg %s %s 7 2 %s 1 aabb -", owner.hex(), owner.hex(), hexName("chain7"))
-			s.fullRound(func(sg, c string) string { return fmt.Sprintf("scappr %s 7 %s", sg, c) })
+			s.do(cf("screg %s %s CID 2 %s 1 aabb -"), owner.hex(), owner.hex(), hexName("chain7"))
+			s.fullRound(func(sg, c string) string { return fmt.Sprintf(cf("scappr %s CID %s"), sg, c) })
 			if kind == "scapprupd" {
-				s.do("scupd %s %s 7 3 %s 5 ccdd 01", owner.hex(), owner.hex(), hexName("chain7b"))
-				mk = func(sg, c string) string { return fmt.Sprintf("scapprupd %s 7 %s", sg, c) }
+				s.do(cf("scupd %s %s CID 3 %s 5 ccdd 01"), owner.hex(), owner.hex(), hexName("chain7b"))
+				mk = func(sg, c string) string { return fmt.Sprintf(cf("scapprupd %s CID %s"), sg, c) }
 			} else {
-				s.do("scquit %s 7 %s", owner.hex(), owner.hex())
-				mk = func(sg, c string) string { return fmt.Sprintf("scapprquit %s 7 %s", sg, c) }
+				s.do(cf("scquit %s CID %s"), owner.hex(), owner.hex())
+				mk = func(sg, c string) string { return fmt.Sprintf(cf("scapprquit %s CID %s"), sg, c) }
 			}
 		case "rlappr":
 			s.do("rlreg %s %s %s,%s", owner.hex(), owner.hex(), s.outs[0].hex(), s.outs[1].hex())
@@ -271,7 +291,12 @@ func (f *gov) genApprovals(s *sc) {
 		case "rlapprrm":
 			s.do("rlreg %s %s %s,%s", owner.hex(), owner.hex(), s.outs[0].hex(), s.outs[1].hex())
 			s.fullRound(func(sg, c string) string { return fmt.Sprintf("rlappr %s 0 %s", sg, c) })
-			s.do("rlrm %s %s %s", owner.hex(), owner.hex(), s.outs[0].hex())
+			if r.Rng.Bool() {
+				s.do("rlrm %s %s %s", owner.hex(), owner.hex(), s.outs[0].hex())
+			} else {
+				// a removal list with repeated addresses
+				s.do("rlrm %s %s %s,%s,%s,%s", owner.hex(), owner.hex(), s.outs[0].hex(), s.outs[1].hex(), s.outs[0].hex(), s.outs[2].hex())
+			}
 			mk = func(sg, c string) string { return fmt.Sprintf("rlapprrm %s 0 %s", sg, c) }
 		case "svappr":
 			s.do("svreg %s %s %s,%s", owner.hex(), owner.hex(), hexName("sv-one"), hexName("sv-two"))
@@ -279,7 +304,15 @@ func (f *gov) genApprovals(s *sc) {
 		case "svapprrm":
 			s.do("svreg %s %s %s,%s", owner.hex(), owner.hex(), hexName("sv-one"), hexName("sv-two"))
 			s.fullRound(func(sg, c string) string { return fmt.Sprintf("svappr %s 0 %s", sg, c) })
-			s.do("svrm %s %s %s", owner.hex(), owner.hex(), hexName("sv-one"))
+			switch r.Rng.Intn(3) {
+			case 0:
+				s.do("svrm %s %s %s", owner.hex(), owner.hex(), hexName("sv-one"))
+			case 1:
+				// every remaining state validator is removed: the result set is empty
+				s.do("svrm %s %s %s,%s", owner.hex(), owner.hex(), hexName("sv-one"), hexName("sv-two"))
+			default:
+				s.do("svrm %s %s %s,%s,%s", owner.hex(), owner.hex(), hexName("sv-two"), hexName("sv-one"), hexName("sv-two"))
+			}
 			mk = func(sg, c string) string { return fmt.Sprintf("svapprrm %s 0 %s", sg, c) }
 		}
 		// the approval sequence under test
@@ -294,12 +327,17 @@ func (f *gov) genApprovals(s *sc) {
 				sg, c := s.approver(&prev)
 				switch r.Rng.Intn(3) {
 				case 0:
-					s.do("scappr %s 8 %s", sg, c)
+					s.do(cf("scappr %s CID2 %s"), sg, c)
 				case 1:
 					s.do("rlappr %s 1 %s", sg, c)
 				default:
 					s.do("appr %s %s %s", sg, s.extra[1].pk, c)
 				}
+			}
+			if r.Rng.Chance(1, 8) {
+				// a pre-executed approval (nothing committed) must not count
+				sg, c := s.approver(&prev)
+				r.Do("dry " + mk(sg, c))
 			}
 			sg, c := s.approver(&prev)
 			r.Do(mk(sg, c))
@@ -310,16 +348,36 @@ func (f *gov) genApprovals(s *sc) {
 		switch kind {
 		case "scapprquit":
 			other := s.newAddr()
-			s.do("screg %s %s 7 9 %s 2 eeff -", other.hex(), other.hex(), hexName("chain7-new-owner"))
-			s.fullRound(func(sg, c string) string { return fmt.Sprintf("scappr %s 7 %s", sg, c) })
+			s.do(cf("screg %s %s CID 9 %s 2 eeff -"), other.hex(), other.hex(), hexName("chain7-new-owner"))
+			s.fullRound(func(sg, c string) string { return fmt.Sprintf(cf("scappr %s CID %s"), sg, c) })
 		case "rlapprrm":
 			s.do("rlreg %s %s %s", owner.hex(), owner.hex(), s.outs[0].hex())
 			s.fullRound(func(sg, c string) string { return fmt.Sprintf("rlappr %s 1 %s", sg, c) })
 		case "svapprrm":
-			s.do("svreg %s %s %s", owner.hex(), owner.hex(), hexName("sv-one"))
+			s.do("svreg %s %s %s,%s", owner.hex(), owner.hex(), hexName("sv-one"), hexName("sv-two"))
 			s.fullRound(func(sg, c string) string { return fmt.Sprintf("svappr %s 1 %s", sg, c) })
 		case "appr":
 			s.do("quit %s %s %s", owner.hex(), cand.pk, owner.hex())
+			if r.Rng.Bool() {
+				// the candidate leaves at the epoch change and returns: its key still has an index record; the
+				// returning candidacy needs its own registration and is applied once
+				s.fullRound(mk)
+				f.w.height++
+				s.do("height %d", f.w.height)
+				if op, ok := f.w.operator(); ok {
+					s.do("commit %s %s", ahex(op), ahex(op))
+				}
+				s.fullRound(mk)
+				s.do("reg %s %s %s", owner.hex(), cand.pk, owner.hex())
+				s.fullRound(mk)
+				s.fullRound(mk)
+				s.do("quit %s %s %s", owner.hex(), cand.pk, owner.hex())
+				f.w.height++
+				s.do("height %d", f.w.height)
+				if op, ok := f.w.operator(); ok {
+					s.do("commit %s %s", ahex(op), ahex(op))
+				}
+			}
 		}
 		s.fullRound(mk)
 		s.do("dump")
@@ -363,7 +421,7 @@ func (f *gov) genRegistry(s *sc) {
 		n := 4 + h%4
 		s.start(fmt.Sprintf("registry-N%d-%d", n, h), n, 0, 100000)
 		owners := []actor{s.newAddr(), s.newAddr(), s.newAddr()}
-		ids := []int{1, 2, 0xfffffffe}
+		ids := []int{1 + 16*h, 2 + 16*h, 0xfffffffe - h}
 		var prev actor
 		if h%4 == 3 {
 			// directed: requests that are still stored when the chain id changes hands
@@ -374,12 +432,12 @@ func (f *gov) genRegistry(s *sc) {
 			}
 			s.do("screg %s %s %d 1 %s 1 aa -", o1.hex(), o1.hex(), id, hexName("first"))
 			round("scappr")
-			if r.Rng.Bool() {
+			if (h/4)%2 == 0 {
 				s.do("scupd %s %s %d 2 %s 2 bb 01", o1.hex(), o1.hex(), id, hexName("first-upd"))
 			}
 			s.do("scquit %s %d %s", o1.hex(), id, o1.hex())
 			round("scapprquit")
-			switch r.Rng.Intn(3) {
+			switch (h / 8) % 3 {
 			case 0:
 				round("scapprupd")
 			case 1:
@@ -393,6 +451,31 @@ func (f *gov) genRegistry(s *sc) {
 				round("scapprquit")
 			}
 		}
+		if h%4 == 2 {
+			// directed: the approval that would complete the quorum is only pre-executed (nothing committed): later
+			// transactions must see the registry as committed, not as the pre-execution left it
+			id := ids[r.Rng.Intn(len(ids))]
+			o1, o2 := owners[0], owners[1]
+			cons := s.consensusNow()
+			thr := ceil23(len(cons))
+			s.do("screg %s %s %d 1 %s 1 aa -", o1.hex(), o1.hex(), id, hexName("first"))
+			for _, v := range cons[:thr-1] {
+				s.do("scappr %s %d %s", v.hex(), id, v.hex())
+			}
+			last := cons[thr-1]
+			s.do("dry scappr %s %d %s", last.hex(), id, last.hex())
+			s.do("scupd %s %s %d 2 %s 2 bb 01", o1.hex(), o1.hex(), id, hexName("too-early"))
+			s.do("scquit %s %d %s", o1.hex(), id, o1.hex())
+			s.do("scappr %s %d %s", last.hex(), id, last.hex())
+			s.do("scquit %s %d %s", o1.hex(), id, o1.hex())
+			for _, v := range cons[:thr-1] {
+				s.do("scapprquit %s %d %s", v.hex(), id, v.hex())
+			}
+			s.do("dry scapprquit %s %d %s", last.hex(), id, last.hex())
+			s.do("screg %s %s %d 3 %s 3 cc -", o2.hex(), o2.hex(), id, hexName("other-owner"))
+			s.do("scupd %s %s %d 2 %s 2 bb 02", o1.hex(), o1.hex(), id, hexName("still-registered"))
+			s.do("scapprquit %s %d %s", last.hex(), id, last.hex())
+		}
 		if h%4 == 1 {
 			// directed: the owner replaces a pending update request after most approvals were given
 			id := ids[r.Rng.Intn(len(ids))]
@@ -405,9 +488,14 @@ func (f *gov) genRegistry(s *sc) {
 			for _, v := range cons[:k] {
 				s.do("scapprupd %s %d %s", v.hex(), id, v.hex())
 			}
-			if r.Rng.Bool() {
+			switch (h / 4) % 4 {
+			case 0:
 				s.do("scupd %s %s %d 2 %s 2 bb 01", o1.hex(), o1.hex(), id, hexName("shown-to-validators")) // identical: same request
-			} else {
+			case 1:
+				s.do("scupd %s %s %d 2 %s 2 bb 02", o1.hex(), o1.hex(), id, hexName("shown-to-validators")) // only ExtraInfo differs
+			case 2:
+				s.do("scupd %s %s %d 2 %s 2 bc 01", o1.hex(), o1.hex(), id, hexName("shown-to-validators")) // only CCMCAddress differs
+			default:
 				s.do("scupd %s %s %d 9 %s 9 ee 02", o1.hex(), o1.hex(), id, hexName("swapped"))
 			}
 			s.fullRound(func(sg, c string) string { return fmt.Sprintf("scapprupd %s %d %s", sg, id, c) })
@@ -420,16 +508,20 @@ func (f *gov) genRegistry(s *sc) {
 				signer = s.pick(owners).hex()
 			}
 			x := r.Rng.Intn(100)
+			dry := ""
+			if r.Rng.Chance(1, 10) {
+				dry = "dry " // pre-executed: nothing committed, nothing may leak into later transactions
+			}
 			switch {
 			case x < 14:
-				s.do("screg %s %s %d %d %s %d %s %s", signer, o.hex(), id, r.Rng.Intn(4), hexName(fmt.Sprintf("n%d", r.Rng.Intn(3))), r.Rng.Intn(3), hx.Hex(r.Rng.Bytes(r.Rng.Intn(3))), hx.Hex(r.Rng.Bytes(r.Rng.Intn(2))))
+				s.do(dry+"screg %s %s %d %d %s %d %s %s", signer, o.hex(), id, r.Rng.Intn(4), hexName(fmt.Sprintf("n%d", r.Rng.Intn(3))), r.Rng.Intn(3), hx.Hex(r.Rng.Bytes(r.Rng.Intn(3))), hx.Hex(r.Rng.Bytes(r.Rng.Intn(2))))
 			case x < 26:
-				s.do("scupd %s %s %d %d %s %d %s %s", signer, o.hex(), id, r.Rng.Intn(4), hexName(fmt.Sprintf("u%d", r.Rng.Intn(3))), 1+r.Rng.Intn(3), hx.Hex(r.Rng.Bytes(r.Rng.Intn(3))), hx.Hex(r.Rng.Bytes(r.Rng.Intn(2))))
+				s.do(dry+"scupd %s %s %d %d %s %d %s %s", signer, o.hex(), id, r.Rng.Intn(4), hexName(fmt.Sprintf("u%d", r.Rng.Intn(3))), 1+r.Rng.Intn(3), hx.Hex(r.Rng.Bytes(r.Rng.Intn(3))), hx.Hex(r.Rng.Bytes(r.Rng.Intn(2))))
 			case x < 36:
-				s.do("scquit %s %d %s", signer, id, o.hex())
+				s.do(dry+"scquit %s %d %s", signer, id, o.hex())
 			default:
 				kind := []string{"scappr", "scappr", "scapprupd", "scapprquit", "scapprquit"}[r.Rng.Intn(5)]
-				mk := func(sg, c string) string { return fmt.Sprintf("%s %s %d %s", kind, sg, id, c) }
+				mk := func(sg, c string) string { return fmt.Sprintf("%s%s %s %d %s", dry, kind, sg, id, c) }
 				if r.Rng.Chance(3, 5) {
 					s.fullRound(mk)
 				} else {
@@ -450,6 +542,18 @@ func (f *gov) genPool(s *sc) {
 	for h := 0; h < nHist; h++ {
 		n := 4 + h%6
 		mbcv := []int{100000, 3, 20}[h%3]
+		dir := h % 10
+		switch dir {
+		case 0:
+			n = 5
+		case 1:
+			n = 5 + (h/10)%3
+		case 3:
+			n = 7 + (h/10)%2
+		}
+		if dir == 0 || dir == 1 || dir == 3 {
+			mbcv = 100000
+		}
 		s.start(fmt.Sprintf("pool-N%d-%d", n, h), n, 4, mbcv)
 		owners := []actor{s.newAddr(), s.newAddr()}
 		all := append(append([]actor{}, s.vals...), s.extra...)
@@ -474,6 +578,69 @@ func (f *gov) genPool(s *sc) {
 			return s.pick(owners).hex()
 		}
 		var prev actor
+		ownerOfKey := func(pk string) string {
+			for _, it := range f.w.now().curPool() {
+				if it.Pk == pk {
+					return ahex(it.Addr)
+				}
+			}
+			return s.outs[0].hex()
+		}
+		commitNow := func() {
+			if op, ok := f.w.operator(); ok {
+				s.do("commit %s %s", ahex(op), ahex(op))
+			}
+		}
+		nextBlock := func() {
+			f.w.height++
+			s.do("height %d", f.w.height)
+		}
+		switch dir {
+		case 0:
+			// directed: a blackNode round is opened with five active members, a quit drops the pool to four, then the
+			// round is completed: the minimum must hold when the action is applied
+			cons := s.consensusNow()
+			target, quitter := cons[0], cons[1]
+			thr := ceil23(len(cons))
+			for _, v := range cons[2 : 2+thr-1] {
+				s.do("black %s %s %s", v.hex(), v.hex(), target.pk)
+			}
+			o := ownerOfKey(quitter.pk)
+			s.do("quit %s %s %s", o, quitter.pk, o)
+			for _, v := range cons {
+				s.do("black %s %s %s", v.hex(), v.hex(), target.pk)
+			}
+			nextBlock()
+			commitNow()
+		case 1:
+			// directed: the member with the highest index leaves, a new candidate joins, the old member returns:
+			// indices stay distinct across epochs
+			top := s.vals[n-1]
+			o := ownerOfKey(top.pk)
+			s.do("quit %s %s %s", o, top.pk, o)
+			nextBlock()
+			commitNow()
+			nw := s.extra[0]
+			s.do("reg %s %s %s", owners[0].hex(), nw.pk, owners[0].hex())
+			s.fullRound(func(sg, c string) string { return fmt.Sprintf("appr %s %s %s", sg, nw.pk, c) })
+			nextBlock()
+			commitNow()
+			s.do("reg %s %s %s", owners[1].hex(), top.pk, owners[1].hex())
+			s.fullRound(func(sg, c string) string { return fmt.Sprintf("appr %s %s %s", sg, top.pk, c) })
+			nextBlock()
+			commitNow()
+		case 3:
+			// directed: two epoch-changing operations in one block (commitDpos then a blackNode quorum on a consensus
+			// member; then two blackNode rounds): the view advances at most once per block
+			nextBlock()
+			commitNow()
+			cons := s.consensusNow()
+			s.fullRound(func(sg, c string) string { return fmt.Sprintf("black %s %s %s", sg, c, cons[0].pk) })
+			nextBlock()
+			s.fullRound(func(sg, c string) string { return fmt.Sprintf("black %s %s %s", sg, c, cons[0].pk) })
+			s.fullRound(func(sg, c string) string { return fmt.Sprintf("black %s %s %s", sg, c, cons[1].pk) })
+			commitNow()
+		}
 		if h%5 == 2 {
 			// directed: a candidacy is withdrawn after some approvals and the same key is registered by another owner
 			k := s.extra[0]
@@ -627,9 +794,44 @@ func (f *gov) genVotes(s *sc) {
 		// source transactions voted through the vote handler: two payloads with the same cross chain id on one chain
 		// (the second release must be refused as already done), one on another chain, one that does not decode
 		cc := r.Rng.Bytes(8)
+		// ... and a divergent payload for the same source chain and height (the vote id must bind the whole payload)
 		deposits := []string{depositTok(3, 100, makeTxExtra(cc, 1)), depositTok(3, 101, makeTxExtra(cc, 2)),
-			depositTok(4, 100, makeTxExtra(cc, 1)), depositTok(3, 7, r.Rng.Bytes(5))}
+			depositTok(4, 100, makeTxExtra(cc, 1)), depositTok(3, 7, r.Rng.Bytes(5)), depositTok(3, 100, makeTxExtra(r.Rng.Bytes(8), 3))}
 		var prev actor
+		if h%3 == 0 && n >= 2 {
+			// directed: a pool member that is not (yet) a consensus member votes when one vote is missing
+			cand := s.extra[0]
+			s.do("reg %s %s %s", s.outs[2].hex(), cand.pk, s.outs[2].hex())
+			s.fullRound(func(sg, c string) string { return fmt.Sprintf("appr %s %s %s", sg, cand.pk, c) })
+			cons := s.consensusNow()
+			thr := ceil23(len(cons))
+			idc := hx.Hex(r.Rng.Bytes(32))
+			d := deposits[4]
+			for _, v := range cons[:thr-1] {
+				s.do("vote %s %s %s", v.hex(), idc, v.hex())
+				s.do("deposit %s %s %s", v.hex(), v.hex(), d)
+				s.do("sig %s %s 1 %s %s %s", v.hex(), v.hex(), hx.Hex(subjects[0]), hx.Hex(r.Rng.Bytes(2)), sha256hex(subjects[0]))
+			}
+			s.do("vote %s %s %s", cand.hex(), idc, cand.hex())
+			s.do("deposit %s %s %s", cand.hex(), cand.hex(), d)
+			s.do("sig %s %s 1 %s %s %s", cand.hex(), cand.hex(), hx.Hex(subjects[0]), hx.Hex(r.Rng.Bytes(2)), sha256hex(subjects[0]))
+			// the divergent payload of the same source transaction gets its own count
+			for _, v := range cons[:thr-1] {
+				s.do("deposit %s %s %s", v.hex(), v.hex(), deposits[0])
+			}
+			s.do("deposit %s %s %s", cons[thr-1].hex(), cons[thr-1].hex(), d)
+		}
+		if h%3 == 1 {
+			// directed: the quorum event was emitted, the validator set changes, signatures keep coming
+			mkSig := func(sg, c string) string {
+				return fmt.Sprintf("sig %s %s 1 %s %s %s", sg, c, hx.Hex(subjects[1]), hx.Hex(r.Rng.Bytes(2)), sha256hex(subjects[1]))
+			}
+			s.fullRound(mkSig)
+			f.poolChange(s)
+			s.fullRound(mkSig)
+			f.poolChange(s)
+			s.fullRound(mkSig)
+		}
 		for i := 0; i < 30; i++ {
 			if r.Rng.Chance(1, 10) {
 				f.poolChange(s)
